@@ -151,6 +151,12 @@ impl Sm2PublicKey {
         };
     }
 
+    /// Verification hook: digest-level verification (wrapper of the private `verify_raw`).
+    #[cfg(gm_rs_verif)]
+    pub fn verif_verify_digest(&self, digest: &[u8], sig: &[u8]) -> Sm2Result<()> {
+        self.verify_raw(digest, &self.point, sig)
+    }
+
     pub fn to_hex_string(&self, compressed: bool) -> String {
         let bytes = self.to_bytes(compressed);
         bytes.encode_hex::<String>()
@@ -239,6 +245,12 @@ impl Sm2PrivateKey {
             sig.extend_from_slice(&s.to_byte_be());
             return Ok(sig);
         }
+    }
+
+    /// Verification hook: digest-level signing (wrapper of the private `sign_raw`).
+    #[cfg(gm_rs_verif)]
+    pub fn verif_sign_digest(&self, digest: &[u8]) -> Sm2Result<Vec<u8>> {
+        self.sign_raw(digest, &self.d)
     }
 
     /// Decrypt the given ASN.1 message.
